@@ -31,7 +31,7 @@ PROPS = {
     'C06': P('C06', 16000, 1500000, modules=['D128.Props.C06', 'D128.Props.C05'], kernel=['Decimal.digits_', 'U128.div100']),
     'C07': P('C07', 16000, 1500000, modules=['D128.Props.C07'], kernel=['digits.round', 'parseFormat', 'Decimal.digits_', 'formatArgs.*']),
     'C08': P('C08', 32000, 3000000, modules=['D128.Props.C08', 'D128.Props.C15'] + KERNEL, kernel=['RoundingMode.round', 'composeQuantum', 'U128.div10', 'U128.add64']),
-    'C09': P('C09', 16000, 1500000, modules=['D128.Props.C09']),
+    'C09': P('C09', 16000, 1500000, modules=['D128.Props.C09'], kernel=['FromFloat64', 'FromFloat32', 'Decimal.Float64', 'Decimal.Float32', 'U256.lsh', 'U256.rsh', 'U256.div10', 'U256.mul64', 'U128.mul1e38', 'RoundingMode.reduce256'], kernel_n={Q: 4000, T: 400000}),
     'C10': P('C10', 32000, 3000000, modules=['D128.Props.C10'], kernel=['U128.div10', 'U128.mul64']),
     'C11': P('C11', 32000, 3000000, modules=['D128.Props.C11', 'D128.Props.C11b'] + KERNEL, kernel=['RoundingMode.reduce64', 'RoundingMode.reduce128', 'RoundingMode.round', 'U128.log10']),
     'C12': P('C12', 32000, 3000000, modules=['D128.Props.C12'], kernel=['compose', 'Decimal.decompose', 'Decimal.MarshalBinary', 'Decimal.UnmarshalBinary']),
